@@ -30,7 +30,7 @@ def run(ctx):
             r.ob("C06.per-instance-match", raw.qualname, ok, "_match must be an instance-level (cached) property, decorators: %s" % raw.decorators, raw.where())
             stores = [x for x in ast.walk(raw.node) if isinstance(x, ast.Assign) and any(isinstance(t, ast.Attribute) for t in x.targets)]
             r.ob("C06.per-instance-match", raw.qualname + "#stores", not stores, "_match stores state besides its own cached value", raw.where())
-    r.floor("C06.per-instance-match", 6)
+    r.floor("C06.per-instance-match", 2)  # the base class's _match; overrides may legitimately come and go
     from ..rules_misc import identity_rule
     ctx.guard(identity_rule, ctx, "C06.identity-keyed")
     ctx.guard(k19_match, ctx, "C06")
